@@ -263,6 +263,22 @@ def eq(I, a, b):
             return False
         return conj(I, [I.eq(a[k], b[k]) for k in a])
     if isinstance(a, (SStr, str)) and isinstance(b, (SStr, str)):
+        ia = a.tag == "ipv4" if isinstance(a, SStr) else False
+        ib = b.tag == "ipv4" if isinstance(b, SStr) else False
+        if ia and ib:
+            return B.eq(I, a.parts[0], b.parts[0])
+        if ia or ib:
+            s, t = (a, b) if ia else (b, a)
+            import socket
+
+            try:
+                packed = socket.inet_aton(t)
+                canonical = socket.inet_ntoa(packed) == t
+            except (OSError, TypeError):
+                canonical = False
+            if not canonical:
+                return False  # inet_ntoa only produces canonical dotted quads
+            return B.eq(I, s.parts[0], packed)
         raise Unsupported("equality of opaque strings")
     if isinstance(a, Opaque) or isinstance(b, Opaque):
         return a is b
@@ -419,6 +435,11 @@ def get_item(I, obj, idx):
         if isinstance(idx, slice):
             return B.slice_(I, b, idx)
         return B.index(I, b, idx)
+    if isinstance(obj, SStr) and obj.tag in ("latin1", "latin1_rstrip0") and isinstance(idx, slice) and idx.start is None and idx.step is None and isinstance(idx.stop, int):
+        n = obj.parts[0].fixed_len()
+        if n is not None and idx.stop >= n:
+            return obj
+        raise Unsupported("slice of symbolic string")
     if isinstance(obj, STuple):
         if isinstance(idx, slice):
             return STuple(B.slice_(I, obj.b, idx))
@@ -522,6 +543,9 @@ def store_item(I, obj, idx, v):
             obj[_KeyWrap(idx)] = v
             return
         obj[idx] = v
+        return
+    if type(obj).__name__ == "SymDict":
+        obj.stores.append((idx, v))
         return
     if isinstance(obj, SObj):
         r = I.lookup_class_attr(obj.cls, "__setitem__")
